@@ -261,3 +261,62 @@ func EnumNestedCloseShapes() []*Program {
 	}
 	return out
 }
+
+// EnumCoroutineUpvalueShapes: closures over locals of a coroutine's functions escape to the outside; the variable stays
+// ONE shared variable across every suspension (writes from either side are seen by the other) and keeps its last
+// value when the coroutine ends — by return, by error(), by a run-time fault in the owning frame or below it.
+func EnumCoroutineUpvalueShapes() []*Program {
+	owners := []string{
+		// the body function owns the variable
+		"local co = MK(function(a, ...)\n local v = a\n get = function() return v end\n set = function(x) v = x end\n %s\nend)",
+		// a parameter is the variable
+		"local co = MK(function(v, ...)\n get = function() return v end\n set = function(x) v = x end\n %s\nend)",
+		// a block-local inside a loop of the body
+		"local co = MK(function(a, ...)\n for i = 1, 1 do\n local v = a\n get = function() return v end\n set = function(x) v = x end\n %s\n end\nend)",
+		// a helper called by the body owns it and yields itself
+		"local function helper(a)\n local v = a\n get = function() return v end\n set = function(x) v = x end\n %s\nend\nlocal co = MK(function(a, ...) local r = helper(a) return r end)",
+		// the vararg body owns it (extra arguments sit below its registers)
+		"local co = MK(function(...)\n local v = ...\n get = function() return v end\n set = function(x) v = x end\n %s\nend)",
+	}
+	yields := map[string]string{
+		"direct": "coroutine.yield(v)",
+		"helper": "(function() coroutine.yield(v) end)()",
+		"pcall":  "Y(v)",
+	}
+	ends := []string{
+		"return v", "error('boom')", "error({})", "local n = nil\n local z = n.x", "local n = nil\n local z = n + 1",
+		"local function deep() local n = nil return n.x end\n local z = deep()", "v = v + 1000\n return", "local w = v .. nil",
+	}
+	drive := `emit('r1', RES(co, 10, 'x1', 'x2'))
+emit('g1', get())
+set(20)
+emit('g2', get())
+emit('r2', RES(co))
+emit('g3', get())
+set(30)
+emit('r3', RES(co))
+emit('g4', get())
+set(40)
+emit('g5', get())
+emit('r4', RES(co))
+emit('g6', get())`
+	var out []*Program
+	for oi, o := range owners {
+		for _, yk := range []string{"direct", "helper", "pcall"} {
+			for ei, e := range ends {
+				body := yields[yk] + "\n v = v + 1\n " + yields[yk] + "\n v = v + 2\n " + e
+				for _, kind := range []string{"create", "wrap"} {
+					pre := "local get, set\nlocal function Y(x) return coroutine.yield(x) end\n"
+					if kind == "create" {
+						pre += "local MK = coroutine.create\nlocal function RES(c, ...) return coroutine.resume(c, ...) end\n"
+					} else {
+						pre += "local MK = coroutine.wrap\nlocal function RES(c, ...) return pcall(c, ...) end\n"
+					}
+					src := pre + fmt.Sprintf(o, body) + "\n" + drive + "\nreturn 'end'"
+					out = append(out, shapeProgram(src, "shape:co-upvalue", fmt.Sprintf("owner:%d", oi), "yield:"+yk, fmt.Sprintf("end:%d", ei), "kind:"+kind))
+				}
+			}
+		}
+	}
+	return out
+}
